@@ -53,3 +53,9 @@ def _tools_digest():
 _verif = _os.path.dirname(_os.path.dirname(_os.path.dirname(_os.path.abspath(__file__))))
 _P["harnesses"] = [dict(name="C03", procs_quick=4, procs_thorough=16,
                         extra=["-I" + _os.path.join(_verif, "harness", "C01_tools"), "-DGV_TOOLS_DIGEST=0x" + _tools_digest()])]
+
+# seeded round 8 (C03G): segments exactly over a pole
+PROPS["C03"]["level_note"] = PROPS["C03"].get("level_note", "") + (
+    " Added after seeded round 8: stratum 'exactly over a pole' (longitudes exactly 180 degrees apart, same hemisphere) with the relation polar-segment-S12 — "
+    "the series and the exact solver give the same S12 outright (gross tolerance 1e-8 of the ellipsoid area; the triangle relation works modulo half the "
+    "ellipsoid area and cannot see a flipped sign), and a segment and its reverse cancel modulo the ellipsoid area.")
